@@ -137,9 +137,21 @@ def g2_g3(F, rep):
                 # the IDAT look-back test: the 4-byte length field must lie before the signature and (after the D9 fix)
                 # not inside a stream that was already emitted — excluded by the property ("bytes that do not themselves form an
                 # acceptable stream overlapping it")
-                if re.match(r"^discr\(", d) or re.match(r"^is_ok\(", d) or d == "Ge(var(index), K4)" or re.match(r"^Ge\(var\(index\), Add\(var\(prev_index\), K4\)(\.0)?\)$", d):
+                if re.match(r"^discr\(", d):
+                    # the outcome of a probe (`if let Ok(..) = decoder(..)`), of the header skipper or of `?` - not the
+                    # outcome of anything else: `match data.first()` inside a plausibility helper is a further condition
+                    # (seed10-c06a: a pre-filter on the first payload byte with the wrong mask)
+                    pd = op_place(st2["d"])
+                    dd = b.single_def(pd["l"]) if pd is not None and not pd["p"] else None
+                    srcs = _discr_sources(b, dd) if dd and dd[2] == "assign" and dd[3]["k"] == "discr" else ["?"]
+                    bad = [c for c in srcs if not re.search(r"(Try>?::branch|from_residual|decompress_deflate_stream|parse_zip_stream|parse_idat|skip_gzip_header|next_signature|Iterator::next|into_iter)$", c) and c != "?"]
+                    if not bad:
+                        continue
+                    extra.append("outcome of %s" % bad[0])
                     continue
-                if re.match(r"^var\(_\d+\)$", d):   # drop flags
+                if re.match(r"^is_ok\(", d) or d == "Ge(var(index), K4)" or re.match(r"^Ge\(var\(index\), Add\(var\(prev_index\), K4\)(\.0)?\)$", d):
+                    continue
+                if re.match(r"^var\(_\d+\)$", d) and _is_drop_flag(b, st2["d"]):   # drop flags: compiler-made, only ever assigned constants
                     continue
                 # (after the D11 fix) the IDAT payload must be exactly the stream: `compressed_size == payload.len()` only
                 # rejects payloads with bytes between the last block and the Adler-32, which the property does not cover
